@@ -79,6 +79,17 @@ def build_api(case, d, vseed):
         fa = prot.write_fasta(db, d / "db.fasta", with_decoys=(fasta_mode == "decoys"))
         spec["fasta"] = str(fa)
         spec["fasta_kwargs"] = dict(missed_cleavages=0, min_length=6)
+    if g % 2 == 1 or g % 3 == 0:
+        # feature columns with missing values: read_pin must drop them, the surviving order must not vary
+        df = tab["df"]
+        pos = list(df.columns).index("Peptide")
+        for j, nm in enumerate(["gap_a", "zz_gap", "Gap_m"]):
+            col = rng.normal(size=len(df))
+            col[int(rng.integers(0, len(df)))] = np.nan
+            df.insert(pos - j, nm, col)
+        for j, nm in enumerate(["extra_b", "aa_extra", "Extra_q", "m_extra"]):
+            df.insert(pos, nm, rng.normal(size=len(df)))
+        tab["df"] = df
     p = psm.write_pin(tab, d / "in.pin") if g % 2 == 0 else psm.write_parquet(tab, d / "in.parquet", row_group_size=64)
     spec["paths"] = [str(p)]
     return spec, dict(fasta=fasta_mode, learner=learner, rows=len(tab["df"]))
